@@ -23,7 +23,7 @@ import (
 // all.  Real time with a watchdog (a deadlock has no virtual clock to advance).
 //
 //	rp kind | scrapeDone prepareDone laterScrapeDone
-func runReprepare(t *testing.T, out *vfh.Out, kind int) {
+func vfRunReprepare(t *testing.T, out *vfh.Out, kind int) {
 	out.Pending(fmt.Sprintf("runReprepare kind=%d", kind))
 	inDump := make(chan struct{})
 	release := make(chan struct{})
@@ -93,6 +93,6 @@ func runReprepare(t *testing.T, out *vfh.Out, kind int) {
 
 func verifReprepare(t *testing.T, out *vfh.Out) {
 	for kind := 0; kind < 3; kind++ {
-		runReprepare(t, out, kind)
+		vfRunReprepare(t, out, kind)
 	}
 }
